@@ -29,7 +29,7 @@ def bounds(tier):
 
 
 def shards(tier):
-    return [("pat", a, b) for a in range(len(KEYS)) for b in range(len(KEYS))] + [("short", 0), ("ctor", 0), ("leak", 0), ("unicode", 0)]
+    return [("pat", a, b) for a in range(len(KEYS)) for b in range(len(KEYS))] + [("short", 0), ("ctor", 0), ("leak", 0), ("unicode", 0)] + [("spellings", r) for r in range(16)]
 
 
 def others():
@@ -250,9 +250,67 @@ def check_ctor(acc):
             )
 
 
+def check_spellings(acc, stripe=None):
+    """The same configuration spelled differently is the same configuration: arguments by position in the documented
+    order (order, case_sensitive, allow_inplace_modification), the order as a list or as instances of a str subclass -
+    same acceptance at construction, same result, same treatment of the input.  Flags given as 1 / 0 are annotated
+    bool, so what a non-bool means is not fixed; but it must mean ONE thing: the instance behaves, on every entry, as
+    one of the four bool configurations does (not case-insensitive at construction and case-sensitive when sorting)."""
+    from ..subtypes import S
+
+    pats = [k for n in (1, 2, 3) for k in itertools.product(KEYS, repeat=n)]
+
+    def view(out, inp):
+        # (the order recorded in the entry's metadata is the caller's own objects: not compared)
+        return pairs(out.blocks[0]), [canon(b) for b in out.blocks[1:]], pairs(inp.blocks[0]), [canon(b) for b in inp.blocks[1:]], out is inp
+
+    def behaviour(mkm):
+        try:
+            m = mkm()
+        except Exception as ex:
+            return ("rejected", type(ex).__name__)
+        out = []
+        for keys in pats:
+            lib = mk(keys)
+            try:
+                out.append(repr(view(m.transform(lib), lib)))
+            except Exception as ex:
+                out.append(("raised", type(ex).__name__))
+        return tuple(out)
+
+    for n_, (order, cs) in enumerate(CUSTOM):
+        if stripe is not None and n_ % 16 != stripe:
+            continue
+        readings = {(c, i): behaviour(lambda c=c, i=i: SortFieldsCustomMiddleware(order=tuple(order), case_sensitive=c, allow_inplace_modification=i)) for c in (True, False) for i in (True, False)}
+        for ip in (True, False):
+            base = readings[(cs, ip)]
+            spell = {
+                "positional": lambda: SortFieldsCustomMiddleware(tuple(order), cs, ip),
+                "order as list": lambda: SortFieldsCustomMiddleware(order=list(order), case_sensitive=cs, allow_inplace_modification=ip),
+                "order of str-subclass instances": lambda: SortFieldsCustomMiddleware(order=tuple(S(k) for k in order), case_sensitive=cs, allow_inplace_modification=ip),
+                "flags as int": lambda: SortFieldsCustomMiddleware(order=tuple(order), case_sensitive=int(cs), allow_inplace_modification=int(ip)),
+            }
+            for name, mkm in spell.items():
+                case = {"spelling": name, "order": list(order), "case_sensitive": cs, "inplace": ip}
+                acc.trace(len(pats))
+                acc.case(nontrivial_key=("spelling", name, order, cs, ip))
+                got = behaviour(mkm)
+                acc.step(("spelling", order, cs, ip), name, hash(got))
+                ok = got in readings.values() if name == "flags as int" else got == base
+                if not ok:
+                    where = next((list(pats[i]) for i in range(len(pats)) if isinstance(got, tuple) and len(got) == len(pats) and isinstance(base, tuple) and len(base) == len(pats) and got[i] != base[i]), None)
+                    acc.violation(
+                        {"oracle": "same_configuration_same_behaviour", "spelling": name, "what": "construction" if (got[:1] == ("rejected",)) != (base[:1] == ("rejected",)) else "result"},
+                        {"case": dict(case, first_differing_keys=where), "observed": repr(got)[:300], "expected": repr(base)[:300] + (" (or any one of the four bool configurations throughout)" if name == "flags as int" else "")},
+                    )
+
+
 def run_shard(shard, tier, acc):
     if shard[0] == "ctor":
         check_ctor(acc)
+        return
+    if shard[0] == "spellings":
+        check_spellings(acc, shard[1])
         return
     if shard[0] == "unicode":
         UK = ["Stra\xdfe", "strasse", "STRASSE", "stra\xdfe", "\u017f", "s", "\u0130", "i\u0307", "\xc9", "\xe9", "e\u0301"]
@@ -295,7 +353,9 @@ def run_shard(shard, tier, acc):
 
 
 def replay(case, acc):
-    if "keys" in case:
+    if "spelling" in case:
+        check_spellings(acc)
+    elif "keys" in case:
         check_entry(tuple(case["keys"]), "thorough", acc)
     else:
         check_ctor(acc)
